@@ -153,6 +153,7 @@ Definition parse_lev (t : bytes) : list lev :=
   | 82 :: n => [LR (N.to_nat (parse_num n))]                         (* R<n> *)
   | 87 :: r => let ps := split_on SLASH r in [LW (of_hex (nthf 0 ps)) (of_hex (nthf 1 ps))]
   | [67] => [LCall] | [68] => [LDeadline] | [69] => [LEof] | [73] => [LIoerr]
+  | 74 :: h => [LInject (of_hex h)]                                   (* J<hex> *)
   | _ => []
   end.
 Definition parse_log (f : bytes) : list lev :=
